@@ -167,13 +167,39 @@ def check(ctx):
         for k in spatial:
             ctx.check(admits(k), R2, fi, s, f"a parent of class {k} (Spatialable, not a compute) is rejected by the guard: its fanout is lost from the count",
                       f"parent class {k} admitted")
-    # Fork / Array copy the list
-    forks = [s for s in it.stmts() if isinstance(s, ast.If) and "isinstance(self, Fork)" in norm(s.test)]
-    ctx.require(len(forks) == 1, R2, f"{it.fq}: Fork branch not found")
-    fk = forks[0]
-    copied = any(isinstance(b, ast.Assign) and norm(b.targets[0]) == "_parents" and norm(b.value) in ("list(_parents)", "_parents.copy()", "_parents[:]", "[*_parents]") for b in fk.body)
-    ctx.check(copied, R2, it, fk, "a Fork shares its parent list with the enclosing hierarchy: nodes inside the fork become ancestors of nodes after it",
+    # Fork / Array: where is the parent list copied, relative to the self-append?
+    COPY_TEXTS = ("list(_parents)", "_parents.copy()", "_parents[:]", "[*_parents]")
+    rebinds = []
+    for stt in it.stmts():
+        for t, v, _ in assigned_targets(stt):
+            if isinstance(t, ast.Name) and t.id == "_parents" and v is not None and norm(v) in COPY_TEXTS:
+                nn = icfg.node_of(stt)
+                gs = [(h.ast.test, lab) for h, lab in icfg.control_conditions(nn) if h.kind == "if" and "isinstance" in norm(h.ast.test)]
+                rebinds.append((stt, nn, gs))
+
+    def copied_for(cls_name):
+        out = []
+        for stt, nn, gs in rebinds:
+            adm = bool(gs)
+            for test, lab in gs:
+                v = _eval_guard(repo, test, "self", cls_name)
+                adm = adm and (v if lab == "true" else not v)
+            if adm:
+                out.append((stt, nn))
+        return out
+
+    fk = copied_for("Fork")
+    ctx.check(bool(fk), R2, it, fk[0][0] if fk else it.node, "a Fork shares its parent list with the enclosing hierarchy: nodes inside the fork become ancestors of nodes after it",
               "Fork branches work on a copy of the parent list")
+    app_stmt = appends[0]
+    while not isinstance(app_stmt, ast.stmt):
+        app_stmt = ipm[id(app_stmt)]
+    n_app = icfg.node_of(app_stmt)
+    spatial_branches = sorted(c for c in repo.subclasses().get("Spatialable", set()) if repo.is_subclass(c, "Branch"))
+    for k in spatial_branches:
+        early = [stt for stt, nn in copied_for(k) if icfg.path_exists(nn, n_app)]
+        ctx.check(not early, R2, it, early[0] if early else app_stmt, f"for a {k} the parent list is copied BEFORE the node appends itself: the {k} is recorded only in its private copy, so every component after it on the "
+                                                                      f"main path loses the {k}'s fanout from its instance count", f"a {k} appends itself to the list shared with its following siblings")
     arr = [c for c in it.calls("iterate_hierarchically")]
     ctx.require(len(arr) >= 2, R2, f"{it.fq}: recursive calls")
     for c in arr:
@@ -223,6 +249,21 @@ VARIANTS = [
     {"kind": "F", "name": "arch-total-over-memories", "rule": "C26-I3", "edits": [(ARCH, "node.name: node.total_area for node in self.get_nodes_of_type(Component)", "node.name: node.total_area for node in self.get_nodes_of_type(Memory)")]},
     {"kind": "F", "name": "only-containers-count", "rule": "C26-I2", "edits": [(SPEC, "if isinstance(p, Spatialable) and not isinstance(p, Compute):", "if isinstance(p, Container):")]},
     {"kind": "F", "name": "fork-shares-parent-list", "rule": "C26-I2", "edits": [(STRUCT, "        if isinstance(self, Fork):\n            _parents = list(_parents)\n", "        if isinstance(self, Fork):\n            _parents = _parents\n")]},
+    {"kind": "F", "name": "array-copies-before-append", "rule": "C26-I2", "edits": [(STRUCT, """        if hasattr(self, "name"):
+            yield self, _parents
+            _parents.append(self)
+
+        # Fork -> don't update the _parents list from MY parent because we're branching
+        # off
+        if isinstance(self, Fork):
+            _parents = list(_parents)
+""", """        if isinstance(self, (Fork, Array)):
+            _parents = list(_parents)
+
+        if hasattr(self, "name"):
+            yield self, _parents
+            _parents.append(self)
+""")]},
     {"kind": "S", "name": "commuted-total", "edits": [(SPEC, "orig.total_area = c.area * global_fanout", "orig.total_area = global_fanout * c.area")]},
     {"kind": "S", "name": "own-fanout-by-augassign", "edits": [(SPEC, "            global_fanout = leaf.get_fanout()\n", "            global_fanout = 1\n            global_fanout *= leaf.get_fanout()\n")]},
     {"kind": "S", "name": "guard-as-nested-not", "edits": [(SPEC, "if isinstance(p, Spatialable) and not isinstance(p, Compute):", "if not isinstance(p, Compute) and isinstance(p, Spatialable):")]},
